@@ -931,10 +931,11 @@ result_t ValueListDataField::writeSymbols(size_t offset, istringstream* input,
   const char* str = inputStr.c_str();
   char* strEnd = nullptr;  // fall back to raw value in input
   unsigned int value;
-  value = (unsigned int)strtoul(str, &strEnd, 10);
-  if (strEnd == nullptr || strEnd == str || (*strEnd != 0 && *strEnd != '.')) {
+  unsigned long longValue = strtoul(str, &strEnd, 10);
+  if (strEnd == nullptr || strEnd == str || (*strEnd != 0 && *strEnd != '.') || longValue > 0xffffffffUL) {
     return RESULT_ERR_INVALID_NUM;  // invalid value
   }
+  value = (unsigned int)longValue;
   if (m_values.find(value) != m_values.end()) {
     return numType->writeRawValue(value, offset, m_length, output, usedLength);
   }
